@@ -589,3 +589,41 @@ Proof.
     exists k. split; [exact Hk|lia].
   - intros z' H. apply rle_run_count_loop_ni. exact H.
 Qed.
+
+(* ---------------------------------------------------------------- corollaries *)
+Theorem rle_roundtrip_full xs tl :
+  all_u64 xs -> N.of_nat (length xs) < 18446744073709551616 ->
+  rle_decode (fst (rle_encode xs) ++ tl) (N.of_nat (length xs)) = ROk xs.
+Proof.
+  intros H1 H2. rewrite rle_decode_roundtrip by (assumption || lia).
+  rewrite Nat2N.id, firstn_all. reflexivity.
+Qed.
+
+Theorem rle_header_roundtrip_full xs tl :
+  all_u64 xs -> N.of_nat (length xs) < 18446744073709551616 ->
+  rle_decode_with_header (fst (rle_encode_with_header xs) ++ tl) (N.of_nat (length xs)) = ROk xs.
+Proof.
+  intros H1 H2. rewrite rle_decode_with_header_roundtrip by assumption.
+  rewrite N.ltb_irrefl. reflexivity.
+Qed.
+
+(* the maximal-run list really is one: it expands to the array, every run is
+   non-empty and neighbouring runs carry different values *)
+Theorem rle_runs_maximal xs :
+  expand_runs (rle_runs xs) = xs /\ Forall (fun r => 1 <= fst r) (rle_runs xs) /\ adj_distinct (rle_runs xs).
+Proof. split; [apply expand_rle_runs|]. split; [apply rle_runs_len_ge1|apply rle_runs_adj]. Qed.
+
+(* GetRunCount on the body of the header format *)
+Theorem rle_get_run_count_header xs tl :
+  all_u64 xs -> N.of_nat (length xs) < 18446744073709551616 ->
+  rle_get_run_count
+    (skipn (N.to_nat (tagged_len (N.of_nat (length xs)))) (fst (rle_encode_with_header xs) ++ tl))
+    (N.of_nat (length (fst (rle_encode_with_header xs))) - tagged_len (N.of_nat (length xs)))
+  = Some (N.of_nat (length (rle_runs xs))).
+Proof.
+  intros H1 H2. unfold rle_encode_with_header. cbn [fst]. rewrite <- app_assoc, skipn_put.
+  rewrite app_length, tagged_put_len_nat.
+  replace (N.of_nat (N.to_nat (tagged_len (N.of_nat (length xs))) + length (fst (rle_encode xs)))
+           - tagged_len (N.of_nat (length xs))) with (N.of_nat (length (fst (rle_encode xs)))) by lia.
+  apply rle_get_run_count_correct; assumption.
+Qed.
